@@ -420,7 +420,8 @@ def bounded_cases(tier, seed):
     for i, c in enumerate(cases):
         c["seed"] = int(seed) * 1000 + i
     if tier == "quick":
-        keep = [c for c in cases if c["model"] in ("EOF", "CPCCA", "POP", "SparsePCA") and c["input"] == "da" or c["fault"].startswith("transform-") and c["model"] == "EOF"]
+        keep = [c for c in cases if c["model"] in ("EOF", "CPCCA", "POP", "SparsePCA") and c["input"] == "da" or c["fault"].startswith("transform-") and c["model"] == "EOF"
+                or c["fault"].startswith(("n_modes-", "solver-")) and c["input"] == "da"]
         rest = [c for c in cases if c not in keep]
         cases = keep + real.subsample(rest, 60, rng)
     return cases
